@@ -125,22 +125,29 @@ pub fn build<V: Val>(spec: &BuildSpec, vals: &[V]) -> (String, Option<Pma<V>>) {
     let r = catch_unwind(AssertUnwindSafe(|| match spec.var {
         Var::B => {
             let pats: Vec<Vec<u8>> = spec.pats.iter().map(|p| pat_bytes(Var::B, p)).collect();
+            // the collection is handed over in different shapes: owned vectors, borrowed slices,
+            // a lazy iterator, boxed slices
+            let shape = spec.pats.len() % 4;
+            let mk = || DoubleArrayAhoCorasickBuilder::new().match_kind(spec.kind.mk()).num_free_blocks(spec.nfb);
             let r = if spec.entry == "new" {
                 if spec.via_builder {
-                    DoubleArrayAhoCorasickBuilder::new()
-                        .match_kind(spec.kind.mk())
-                        .num_free_blocks(spec.nfb)
-                        .build::<_, _, V>(pats)
+                    match shape {
+                        0 => mk().build::<_, _, V>(pats),
+                        1 => mk().build::<_, _, V>(pats.iter().map(Vec::as_slice).collect::<Vec<&[u8]>>()),
+                        2 => mk().build::<_, _, V>(pats.iter().map(|p| p.as_slice())),
+                        _ => mk().build::<_, _, V>(pats.iter().map(|p| p.clone().into_boxed_slice())),
+                    }
                 } else {
                     DoubleArrayAhoCorasick::<V>::new(pats)
                 }
             } else {
                 let pv: Vec<(Vec<u8>, V)> = pats.into_iter().zip(vals.iter().copied()).collect();
                 if spec.via_builder {
-                    DoubleArrayAhoCorasickBuilder::new()
-                        .match_kind(spec.kind.mk())
-                        .num_free_blocks(spec.nfb)
-                        .build_with_values(pv)
+                    match shape {
+                        0 => mk().build_with_values(pv),
+                        1 => mk().build_with_values(pv.iter().map(|(p, v)| (p.as_slice(), *v))),
+                        _ => mk().build_with_values(pv.into_iter().map(|(p, v)| (p.into_boxed_slice(), v))),
+                    }
                 } else {
                     DoubleArrayAhoCorasick::<V>::with_values(pv)
                 }
@@ -149,22 +156,29 @@ pub fn build<V: Val>(spec: &BuildSpec, vals: &[V]) -> (String, Option<Pma<V>>) {
         }
         Var::C => {
             let pats: Vec<String> = spec.pats.iter().map(pat_string).collect();
+            let shape = spec.pats.len() % 4;
+            let mk = || {
+                CharwiseDoubleArrayAhoCorasickBuilder::new().match_kind(spec.kind.mk()).num_free_blocks(spec.nfb)
+            };
             let r = if spec.entry == "new" {
                 if spec.via_builder {
-                    CharwiseDoubleArrayAhoCorasickBuilder::new()
-                        .match_kind(spec.kind.mk())
-                        .num_free_blocks(spec.nfb)
-                        .build::<_, _, V>(pats)
+                    match shape {
+                        0 => mk().build::<_, _, V>(pats),
+                        1 => mk().build::<_, _, V>(pats.iter().map(String::as_str).collect::<Vec<&str>>()),
+                        2 => mk().build::<_, _, V>(pats.iter().map(|p| p.as_str())),
+                        _ => mk().build::<_, _, V>(pats.iter().map(|p| p.clone().into_boxed_str())),
+                    }
                 } else {
                     CharwiseDoubleArrayAhoCorasick::<V>::new(pats)
                 }
             } else {
                 let pv: Vec<(String, V)> = pats.into_iter().zip(vals.iter().copied()).collect();
                 if spec.via_builder {
-                    CharwiseDoubleArrayAhoCorasickBuilder::new()
-                        .match_kind(spec.kind.mk())
-                        .num_free_blocks(spec.nfb)
-                        .build_with_values(pv)
+                    match shape {
+                        0 => mk().build_with_values(pv),
+                        1 => mk().build_with_values(pv.iter().map(|(p, v)| (p.as_str(), *v))),
+                        _ => mk().build_with_values(pv.into_iter().map(|(p, v)| (p.into_boxed_str(), v))),
+                    }
                 } else {
                     CharwiseDoubleArrayAhoCorasick::<V>::with_values(pv)
                 }
@@ -255,8 +269,37 @@ impl MatchRec {
     }
 }
 
+/// A real search iterator behind a box that still reaches the CONCRETE type's implementation of the
+/// internal-iteration methods (`Box<dyn Iterator>` forwards only next/size_hint/nth; its `fold` is the
+/// default loop over next(), so an overridden `fold` of the boxed type would never run).
+pub trait MatchIter<V>: Iterator<Item = Match<V>> {
+    fn for_each_box(self: Box<Self>, f: &mut dyn FnMut(Match<V>));
+    fn fold_box(self: Box<Self>, f: &mut dyn FnMut(Match<V>));
+    fn count_box(self: Box<Self>) -> usize;
+    fn last_box(self: Box<Self>) -> Option<Match<V>>;
+    fn hint(&self) -> (usize, Option<usize>);
+}
+
+impl<V, I: Iterator<Item = Match<V>>> MatchIter<V> for I {
+    fn for_each_box(self: Box<Self>, f: &mut dyn FnMut(Match<V>)) {
+        (*self).for_each(|m| f(m))
+    }
+    fn fold_box(self: Box<Self>, f: &mut dyn FnMut(Match<V>)) {
+        (*self).fold((), |(), m| f(m))
+    }
+    fn count_box(self: Box<Self>) -> usize {
+        (*self).count()
+    }
+    fn last_box(self: Box<Self>) -> Option<Match<V>> {
+        (*self).last()
+    }
+    fn hint(&self) -> (usize, Option<usize>) {
+        self.size_hint()
+    }
+}
+
 pub struct StepIter<'a, V> {
-    it: Box<dyn Iterator<Item = Match<V>> + 'a>,
+    it: Box<dyn MatchIter<V> + 'a>,
     /// bytes available to a streaming source (entry "stream")
     pub limit: Option<Rc<Cell<usize>>>,
     pulled: Option<Rc<Cell<usize>>>,
@@ -265,6 +308,60 @@ pub struct StepIter<'a, V> {
 }
 
 impl<'a, V: Val> StepIter<'a, V> {
+    pub fn into_inner(self) -> Box<dyn MatchIter<V> + 'a> {
+        self.it
+    }
+
+    /// Consumes the iterator through an internal-iteration method of the Iterator trait, called on the
+    /// concrete iterator type: "fold" / "for_each" (results collected), "count", "last".
+    /// Returns (collected results, number consumed, last result for "last").
+    pub fn drain(self, mode: &str) -> (Vec<MatchRec>, i64, Option<MatchRec>) {
+        let (a, b, c, _) = self.drain_pulled(mode);
+        (a, b, c)
+    }
+
+    /// as `drain`, plus the number of bytes pulled from a counting source afterwards (-1: none)
+    pub fn drain_pulled(self, mode: &str) -> (Vec<MatchRec>, i64, Option<MatchRec>, i64) {
+        let pulled = self.pulled.clone();
+        let (a, b, c) = self.drain_inner(mode);
+        (a, b, c, pulled.map_or(-1, |c| c.get() as i64))
+    }
+
+    fn drain_inner(self, mode: &str) -> (Vec<MatchRec>, i64, Option<MatchRec>) {
+        fn conv<V: Val>(m: Match<V>) -> MatchRec {
+            MatchRec { s: m.start() as i64, e: m.end() as i64, v: m.value().show(), pulled: -1, probes: 0, hops: 0 }
+        }
+        let mut out = vec![];
+        let mut n = 0i64;
+        match mode {
+            "fold" | "for_each" => {
+                let mut f = |m: Match<V>| {
+                    n += 1;
+                    if out.len() < 100_000 {
+                        out.push(conv(m));
+                    }
+                };
+                if mode == "fold" {
+                    self.it.fold_box(&mut f)
+                } else {
+                    self.it.for_each_box(&mut f)
+                }
+                (out, n, None)
+            }
+            "count" => (out, self.it.count_box() as i64, None),
+            _ => {
+                // `last` says nothing about how many were consumed
+                let l = self.it.last_box().map(conv);
+                (out, -1, l)
+            }
+        }
+    }
+
+    /// size_hint() of the real iterator
+    pub fn hint(&self) -> (usize, Option<usize>) {
+        self.it.hint()
+    }
+
     /// One `next()` call on the real iterator; counters are accumulated per iterator.
     pub fn step(&mut self) -> (Option<MatchRec>, i64, u64, u64) {
         daachorse::verif_hooks::reset();
@@ -303,7 +400,7 @@ impl<V: Val> Pma<V> {
         if entry == "owned" {
             return StepIter { it: self.iter_owned(method, hay), limit: None, pulled: None, probes: 0, hops: 0 };
         }
-        let it: Box<dyn Iterator<Item = Match<V>> + 'a> = match self {
+        let it: Box<dyn MatchIter<V> + 'a> = match self {
             Pma::B(p) => {
                 let h: &'a [u8] = hay.as_slice();
                 match (method, from_iter) {
@@ -355,11 +452,11 @@ impl<V: Val> Pma<V> {
     /// The haystack is handed over BY VALUE in an owning container (`[u8; N]` stored inline for the
     /// lengths 4/8/16/32, `Vec<u8>` otherwise; `String` for the char-wise automaton), and the
     /// iterator is then moved to the heap: any pointer into the moved-from value would dangle.
-    fn iter_owned<'a>(&'a self, method: &str, hay: &Rc<Vec<u8>>) -> Box<dyn Iterator<Item = Match<V>> + 'a> {
+    fn iter_owned<'a>(&'a self, method: &str, hay: &Rc<Vec<u8>>) -> Box<dyn MatchIter<V> + 'a> {
         macro_rules! by_value {
             ($p:expr, $h:expr) => {
                 match method {
-                    "ov" => Box::new($p.find_overlapping_iter($h)) as Box<dyn Iterator<Item = Match<V>> + 'a>,
+                    "ov" => Box::new($p.find_overlapping_iter($h)) as Box<dyn MatchIter<V> + 'a>,
                     "find" => Box::new($p.find_iter($h)),
                     "nosuf" => Box::new($p.find_overlapping_no_suffix_iter($h)),
                     "lm" => Box::new($p.leftmost_find_iter($h)),
@@ -374,6 +471,9 @@ impl<V: Val> Pma<V> {
                 16 => by_value!(p, <[u8; 16]>::try_from(hay.as_slice()).unwrap()),
                 32 => by_value!(p, <[u8; 32]>::try_from(hay.as_slice()).unwrap()),
                 n if n <= 64 && n % 2 == 1 => by_value!(p, InlineBytes::new(hay.as_slice())),
+                n if n % 6 == 0 => by_value!(p, hay.as_ref().clone().into_boxed_slice()),
+                n if n % 6 == 2 => by_value!(p, std::borrow::Cow::<[u8]>::Owned(hay.as_ref().clone())),
+                n if n % 6 == 4 => by_value!(p, std::sync::Arc::<[u8]>::from(hay.as_slice())),
                 _ => by_value!(p, hay.as_ref().clone()),
             },
             Pma::C(p) => {
@@ -381,7 +481,113 @@ impl<V: Val> Pma<V> {
                     by_value!(p, InlineStr(InlineBytes::new(hay.as_slice())))
                 } else {
                     let s = String::from_utf8(hay.as_ref().clone()).expect("harness: valid UTF-8");
-                    by_value!(p, s)
+                    match hay.len() % 6 {
+                        0 => by_value!(p, s.into_boxed_str()),
+                        2 => by_value!(p, std::borrow::Cow::<str>::Owned(s)),
+                        4 => by_value!(p, std::sync::Arc::<str>::from(s.as_str())),
+                        _ => by_value!(p, s),
+                    }
+                }
+            }
+        }
+    }
+
+    /// Takes `j` results with next() and hands the rest of the iterator to an internal-iteration
+    /// consumer of the Iterator trait: "fold" (collects), "count", "last".  The iterator is used
+    /// through its CONCRETE type (a `Box<dyn Iterator>` would bypass an overridden `fold`).
+    /// Returns the matches obtained (for "fold": all of them), the number consumed internally and,
+    /// for "last", the last one.
+    pub fn search_mixed(
+        &self,
+        method: &str,
+        entry: &str,
+        hay: &Rc<Vec<u8>>,
+        j: usize,
+        mode: &str,
+    ) -> (Vec<MatchRec>, i64, Option<MatchRec>) {
+        fn conv<V: Val>(m: Match<V>) -> MatchRec {
+            MatchRec { s: m.start() as i64, e: m.end() as i64, v: m.value().show(), pulled: -1, probes: 0, hops: 0 }
+        }
+        macro_rules! mixed {
+            ($it:expr) => {{
+                let mut it = $it;
+                let mut out: Vec<MatchRec> = vec![];
+                let mut exhausted = false;
+                for _ in 0..j {
+                    match it.next() {
+                        Some(m) => out.push(conv(m)),
+                        None => {
+                            exhausted = true;
+                            break;
+                        }
+                    }
+                }
+                if exhausted {
+                    (out, 0i64, None)
+                } else {
+                    match mode {
+                        "fold" => {
+                            let rest = it.fold(vec![], |mut acc: Vec<MatchRec>, m| {
+                                if acc.len() < 100_000 {
+                                    acc.push(conv(m));
+                                }
+                                acc
+                            });
+                            let n = rest.len() as i64;
+                            out.extend(rest);
+                            (out, n, None)
+                        }
+                        "count" => {
+                            let n = it.count() as i64;
+                            (out, n, None)
+                        }
+                        _ => {
+                            // for_each is fold-based as well
+                            let mut n = 0i64;
+                            let mut last = None;
+                            it.for_each(|m| {
+                                n += 1;
+                                last = Some(conv(m));
+                            });
+                            (out, n, last)
+                        }
+                    }
+                }
+            }};
+        }
+        let pulled = Rc::new(Cell::new(0usize));
+        let from_iter = entry == "iter";
+        match self {
+            Pma::B(p) => {
+                let h: &[u8] = hay.as_slice();
+                match (method, from_iter) {
+                    ("ov", false) => mixed!(p.find_overlapping_iter(h)),
+                    ("ov", true) => mixed!(p.find_overlapping_iter_from_iter(CountingSrc::new(hay.clone(), pulled.clone()))),
+                    ("find", false) => mixed!(p.find_iter(h)),
+                    ("find", true) => mixed!(p.find_iter_from_iter(CountingSrc::new(hay.clone(), pulled.clone()))),
+                    ("nosuf", false) => mixed!(p.find_overlapping_no_suffix_iter(h)),
+                    ("nosuf", true) => {
+                        mixed!(p.find_overlapping_no_suffix_iter_from_iter(CountingSrc::new(hay.clone(), pulled.clone())))
+                    }
+                    _ => mixed!(p.leftmost_find_iter(h)),
+                }
+            }
+            Pma::C(p) => {
+                let h: &str = std::str::from_utf8(hay.as_slice()).expect("harness: valid UTF-8");
+                match (method, from_iter) {
+                    ("ov", false) => mixed!(p.find_overlapping_iter(h)),
+                    ("ov", true) => mixed!(unsafe {
+                        p.find_overlapping_iter_from_iter(CountingSrc::new(hay.clone(), pulled.clone()))
+                    }),
+                    ("find", false) => mixed!(p.find_iter(h)),
+                    ("find", true) => {
+                        mixed!(unsafe { p.find_iter_from_iter(CountingSrc::new(hay.clone(), pulled.clone())) })
+                    }
+                    ("nosuf", false) => mixed!(p.find_overlapping_no_suffix_iter(h)),
+                    ("nosuf", true) => mixed!(unsafe {
+                        p.find_overlapping_no_suffix_iter_from_iter(CountingSrc::new(hay.clone(), pulled.clone()))
+                    }),
+                    _ => mixed!(p.leftmost_find_iter(h)),
                 }
             }
         }
